@@ -85,3 +85,37 @@ package datatypes
 //@   ensures[keeps-all]       len(old(ppp.Operations)) <= its.calculatePullingOperations(ppp.CheckPoint) ==> len(ppp.Operations) == len(old(ppp.Operations))
 //@   ensures[checkpoint-untouched] its.checkPoint.Sseq == old(its.checkPoint.Sseq) && its.checkPoint.Cseq == old(its.checkPoint.Cseq)
 //@   modifies model.PushPullPack.Operations
+
+//@ func (*BaseDatatype).GetMeta
+//@   mode math
+//@   props C10
+//@   requires its.ctx != nil
+//@   modifies nothing
+
+//@ func (*TransactionDatatype).ResetTransaction
+//@   mode math
+//@   props C09 C13
+//@   requires its.BaseDatatype != nil && its.BaseDatatype.Datatype != nil && its.BaseDatatype.ctx != nil
+//@   ensures[ops-cleared] result == nil ==> len(its.rollbackOps) == 0
+//@   ensures[error-changes-nothing] result != nil ==> len(its.rollbackOps) == old(len(its.rollbackOps))
+//@   modifies TransactionDatatype.rollbackSnapshot, TransactionDatatype.rollbackMeta, TransactionDatatype.rollbackOps
+
+// checkOptionAndError: what a reply does before its operations are applied.
+//  - an error reply is turned into a returned error, never a panic, and leaves checkpoint,
+//    pending operations and identifiers untouched (C08, C13, C16: "remains usable");
+//  - a subscribe reply resets the replica and positions the checkpoint so that all carried
+//    operations will be applied (C13);
+//  - any other reply changes nothing.
+//@ func (*WiredDatatype).checkOptionAndError
+//@   mode wrap
+//@   props C08 C13 C16
+//@   requires wiredWF(its) && its.opID != nil && its.BaseDatatype.Datatype != nil && its.BaseDatatype.ctx != nil
+//@   requires ppp != nil && ppp.CheckPoint != nil && ppp.CheckPoint != its.checkPoint && opsWF(ppp.Operations)
+//@   requires[server-reply-shape] (ppp.GetPushPullPackOption().HasErrorBit() || ppp.GetPushPullPackOption().HasSubscribeBit()) ==> len(ppp.Operations) >= 1
+//@   requires[error-op-first] ppp.GetPushPullPackOption().HasErrorBit() ==> ppp.Operations[0].OpType == model.TypeOfOperation_ERROR
+//@   ensures[error-reply-reported]  ppp.GetPushPullPackOption().HasErrorBit() ==> result != nil
+//@   ensures[error-changes-nothing] result != nil ==> its.checkPoint.Sseq == old(its.checkPoint.Sseq) && its.checkPoint.Cseq == old(its.checkPoint.Cseq) && len(its.localBuffer) == old(len(its.localBuffer)) && its.opID.Seq == old(its.opID.Seq) && its.opID.Lamport == old(its.opID.Lamport)
+//@   ensures[plain-reply-untouched] !ppp.GetPushPullPackOption().HasErrorBit() && !ppp.GetPushPullPackOption().HasSubscribeBit() ==> result == nil && its.checkPoint.Sseq == old(its.checkPoint.Sseq) && its.checkPoint.Cseq == old(its.checkPoint.Cseq) && len(its.localBuffer) == old(len(its.localBuffer)) && its.opID.Seq == old(its.opID.Seq)
+//@   ensures[subscribe-checkpoint]  result == nil && ppp.GetPushPullPackOption().HasSubscribeBit() ==> its.checkPoint.Cseq == ppp.CheckPoint.Cseq && math(its.checkPoint.Sseq) + len(ppp.Operations) == math(ppp.CheckPoint.Sseq) + (ppp.CheckPoint.Sseq < len(ppp.Operations) ? 18446744073709551616 : 0)
+//@   ensures[subscribe-resets]      result == nil && ppp.GetPushPullPackOption().HasSubscribeBit() ==> len(its.localBuffer) == 0 && its.opID.Seq == 0
+//@   modifies WiredDatatype.localBuffer, model.OperationID.Seq, model.CheckPoint.Sseq, model.CheckPoint.Cseq, SnapshotDatatype.Snapshot, TransactionDatatype.rollbackSnapshot, TransactionDatatype.rollbackMeta, TransactionDatatype.rollbackOps, errors.singleOrdaError.Code, errors.PushPullError.*, @operations.ModelToOperation
